@@ -62,6 +62,7 @@ func (c11Discard) Write(p []byte) (int, error) { return len(p), nil }
 // model
 
 type c11Pod struct {
+	ns, objName string // namespace and object name (a name may repeat in another namespace; p.name stays unique)
 	idx          int
 	name         string
 	pod          *corev1.Pod
@@ -255,7 +256,7 @@ func c11BuildPodObject(p *c11Pod) *corev1.Pod {
 	}
 	prio := p.prio
 	return &corev1.Pod{
-		ObjectMeta: metav1.ObjectMeta{Name: p.name, Namespace: "default", UID: types.UID("uid-" + p.name), Labels: labels, Annotations: ann},
+		ObjectMeta: metav1.ObjectMeta{Name: p.objName, Namespace: p.ns, UID: types.UID("uid-" + p.name), Labels: labels, Annotations: ann},
 		Spec: corev1.PodSpec{
 			Priority:   &prio,
 			Containers: []corev1.Container{{Name: "main", Resources: corev1.ResourceRequirements{Requests: req}}},
@@ -523,7 +524,14 @@ func c11GenPods(r *kit.Rand, n int, mode int) []*c11Pod {
 	pods := make([]*c11Pod, n)
 	sharedPrio := kit.Pick(r, []int32{5500, 100, -1 << 31, -1, 1})
 	for i := range pods {
-		p := &c11Pod{idx: i, name: fmt.Sprintf("p%d", i), optOut: map[string]bool{}}
+		p := &c11Pod{idx: i, name: fmt.Sprintf("p%d", i), optOut: map[string]bool{}, ns: "default"}
+		p.objName = p.name
+		if r.Pct(20) {
+			p.ns = "team-a"
+			if i > 0 && pods[i-1].ns == "default" && r.Pct(40) {
+				p.objName = pods[i-1].objName
+			}
+		}
 		var lo, hi int32
 		switch r.Weighted(45, 20, 15, 20) {
 		case 0:
@@ -812,7 +820,7 @@ func TestVerifC11Tasks(t *testing.T) {
 		Rule: "2-15 pods (class, QoS, priority at class boundaries, eviction-priority, sub-priority label, zero usage / no sample / zero request), 1-3 tasks of one plugin in its published feature order with the strategies' filters, comparators, release-function shapes and targets from 1 to more than everything; executor script none / all fail / first only / every k-th / random p%, 0-100% of pods already evicted, evict-by-API or kill mode; distinct = (plugin, features, n class, fault script kind, already-evicted class, attempts class, met/unmet); non-trivial = at least one attempt and (a failure, an already-evicted pod counted, or a task whose target was met)"},
 		func(c *kit.Case) {
 			r := c.R
-			n := r.Range(2, 15)
+			n := []int{r.Range(2, 15), r.Range(16, 40)}[r.Weighted(94, 6)]
 			sc := c11GenScenario(r, n, 3)
 			kind := r.Weighted(25, 10, 15, 20, 30)
 			k, off, pct := r.Range(2, 4), r.Intn(4), kit.Pick(r, []int{10, 30, 50, 80})
@@ -984,7 +992,7 @@ func TestVerifC11SmallExhaustive(t *testing.T) {
 				d := k % 9
 				k /= 9
 				// list order = increasing priority, so a pod that frees nothing may precede useful ones
-				p := &c11Pod{idx: i, name: fmt.Sprintf("p%d", i), class: apiext.PriorityBatch, be: true, prio: apiext.PriorityBatchValueMin + int32(i),
+				p := &c11Pod{idx: i, name: fmt.Sprintf("p%d", i), ns: "default", objName: fmt.Sprintf("p%d", i), class: apiext.PriorityBatch, be: true, prio: apiext.PriorityBatchValueMin + int32(i),
 					labelPrio: int64(apiext.PriorityBatchValueMin) + int64(i), hasMetric: d%3 > 0, usedMem: int64(d % 3), optOut: map[string]bool{}}
 				switch d / 3 {
 				case 1:
